@@ -231,8 +231,11 @@ func (tc *tokenConverter) convertSingleToken(t models.TokenWithSpan) (token.Toke
 		// needs as specific types. Data type keywords (VARCHAR, INTEGER, etc.)
 		// are intentionally left as identifiers since the parser handles them
 		// via isDataTypeKeyword() with literal fallback.
-		if modelType := getIdentifierKeywordType(t.Token.Value); modelType != models.TokenTypeUnknown {
-			return token.Token{Type: modelType, Literal: t.Token.Value}, nil
+		// A quoted (back-ticked) word is never a keyword.
+		if t.Token.Quote == 0 {
+			if modelType := getIdentifierKeywordType(t.Token.Value); modelType != models.TokenTypeUnknown {
+				return token.Token{Type: modelType, Literal: t.Token.Value}, nil
+			}
 		}
 		return token.Token{Type: models.TokenTypeIdentifier, Literal: t.Token.Value}, nil
 	}
